@@ -216,7 +216,8 @@ def triage(args):
     done = set()
     if os.path.exists(out_path):
         done = set(json.loads(l)["id"] for l in open(out_path))
-    todo = [r for r in res if r["outcome"] == "SILENT" and r["file"].startswith("lib/") and r["id"] not in done and (not args.match or any(s in r["id"] for s in args.match))]
+    kinds = ("SILENT", "reported") if args.reported else ("SILENT",)
+    todo = [r for r in res if r["outcome"] in kinds and r["file"].startswith("lib/") and r["id"] not in done and (not args.match or any(s in r["id"] for s in args.match))]
     print("%d silent lib survivors to triage" % len(todo))
     workers = [Worker(100 + k, scratch) for k in range(args.workers)]
     free = list(workers)
@@ -240,7 +241,7 @@ def triage(args):
             mism = sorted(set(l.split(":")[0].replace("MISMATCH ", "") for l in o.splitlines() if l.startswith("MISMATCH")))
             panics = [l.strip()[:160] for l in o.splitlines() if "panicked at" in l and "triage_oracle.rs" not in l][:3]
             verdict = "oracle-pass" if rc == 0 else ("oracle-timeout" if rc == 124 else "oracle-FAIL")
-            r = {"id": m["id"], "verdict": verdict, "mismatch": mism[:12], "panics": panics, "old": m["old"].strip(), "new": m["new"].strip()}
+            r = {"id": m["id"], "outcome": m["outcome"], "fired": m.get("fired", []), "heads": m.get("heads", {}), "verdict": verdict, "mismatch": mism[:12], "panics": panics, "old": m["old"].strip(), "new": m["new"].strip()}
         except Exception as e:  # noqa
             r = {"id": m["id"], "verdict": "error", "error": str(e)}
         finally:
@@ -281,6 +282,7 @@ def main():
     ap.add_argument("--workers", type=int, default=4)
     ap.add_argument("--limit", type=int, default=0)
     ap.add_argument("--match", nargs="*", default=[])
+    ap.add_argument("--reported", action="store_true", help="triage: also run the oracle on reported mutants (reported + oracle-pass = candidate false alarm)")
     a = ap.parse_args()
     os.makedirs(a.scratch, exist_ok=True)
     if a.cmd == "gen":
